@@ -8,6 +8,9 @@
 package region
 
 import (
+	"bytes"
+	"io"
+	"log/slog"
 	"net"
 
 	"github.com/tsuna/gohbase/compression"
@@ -68,4 +71,27 @@ func (v *VerifMulti) ReturnResults(msg proto.Message, err error) {
 // VerifExceptionToError exports the exception classification.
 func VerifExceptionToError(class, stack string) error {
 	return exceptionToError(class, stack)
+}
+
+// VerifReceive runs the connection reader's receive step once on frame, with
+// rpc registered as the only outstanding call (call id 1) of a connection
+// that uses conn for its deadlines.
+func VerifReceive(rpc hrpc.Call, codec compression.Codec, conn net.Conn, frame []byte) error {
+	c := &client{
+		conn:   conn,
+		done:   make(chan struct{}),
+		sent:   make(map[uint32]hrpc.Call),
+		logger: slog.New(slog.NewTextHandler(io.Discard, nil)),
+	}
+	if codec != nil {
+		c.compressor = &compressor{Codec: codec}
+	}
+	c.registerRPC(rpc)
+	c.inFlight = 1
+	return c.receive(bytes.NewReader(frame))
+}
+
+// VerifReceiveMulti is VerifReceive for a multi-request.
+func VerifReceiveMulti(v *VerifMulti, codec compression.Codec, conn net.Conn, frame []byte) error {
+	return VerifReceive(v.m, codec, conn, frame)
 }
